@@ -401,6 +401,25 @@ def _project(t: Term) -> Optional[Term]:
     """One step of evaluation on a term whose parts are already normalised: field / index of a value-class
     constructor, conditionals on a constant, explicit default arguments."""
     k = t[0]
+    if k == "call" and len(t) == 4 and t[1] == ("glob", "isinstance") and len(t[2]) == 2 and not t[3] and is_term(t[2][1]) and t[2][1][0] == "glob" and t[2][1][1] in RECORDS:
+        # `isinstance(v, C)` for a value class C of the package, decided where v is known by construction
+        def inst(v: Any) -> Optional[Term]:
+            v = strip(v) if is_term(v) else v
+            if not is_term(v):
+                return None
+            if v[0] == "phi" and len(v) == 4:
+                a, b = inst(v[2]), inst(v[3])
+                if a is None or b is None:
+                    return None
+                return a if a == b else ("phi", v[1], a, b)
+            if v[0] == "call" and len(v) == 4 and is_term(v[1]) and v[1][0] == "glob" and v[1][1] in RECORDS:
+                return ("const", v[1][1] == t[2][1][1])
+            if v[0] in ("const", "tuple", "dict", "bag", "op"):
+                return ("const", False)           # a constant, a plain display or an arithmetic value is not an instance of C
+            return None
+        r = inst(t[2][0])
+        if r is not None:
+            return r
     if k == "attr" and len(t) == 3:
         b = strip(t[1]) if is_term(t[1]) and t[1][0] == "let" else t[1]
         rv = record_values(b)
